@@ -147,6 +147,7 @@ func parenC03(c *Ctx, tt *tokenTable) {
 		}
 	}
 	parenPrintC03(c)
+	binPrintC03(c, "C03.binprint")
 	// --- regex rhs ---
 	var insertBlk *ssa.BasicBlock
 	binT := p.Named("BinaryExpr")
@@ -227,6 +228,50 @@ func assocC03(c *Ctx) {
 		}
 	}
 	if nCmp != 1 {
+		// one side is a Precedence() result, the other is *computed from* one
+		// (adjusted, or chosen per operator): some operator is compared at a
+		// level that is not its own
+		var derived func(v ssa.Value, depth int) bool
+		derived = func(v ssa.Value, depth int) bool {
+			if depth > 4 {
+				return false
+			}
+			switch x := v.(type) {
+			case *ssa.Call:
+				return x.Call.StaticCallee() == precF
+			case *ssa.BinOp:
+				return derived(x.X, depth+1) || derived(x.Y, depth+1)
+			case *ssa.Phi:
+				for _, e := range x.Edges {
+					if derived(e, depth+1) {
+						return true
+					}
+				}
+			}
+			return false
+		}
+		for _, b := range sf.Blocks {
+			for _, in := range b.Instrs {
+				bo, ok := in.(*ssa.BinOp)
+				if !ok || !(bo.Op == token.LSS || bo.Op == token.LEQ || bo.Op == token.GTR || bo.Op == token.GEQ) {
+					continue
+				}
+				cx, okx := bo.X.(*ssa.Call)
+				cy, oky := bo.Y.(*ssa.Call)
+				xIsPrec := okx && cx.Call.StaticCallee() == precF
+				yIsPrec := oky && cy.Call.StaticCallee() == precF
+				if xIsPrec != yIsPrec {
+					other := bo.Y
+					if yIsPrec {
+						other = bo.X
+					}
+					if _, plain := other.(*ssa.Call); !plain && derived(other, 0) {
+						c.Bad("C03.assoc", "(*Parser).ParseExpr: precedence comparison", bo.Pos(), "the right child's precedence is compared with a value computed from the new operator's precedence (adjusted or selected per operator), not with that precedence itself: some operator does not group at its own level / to the left")
+						return
+					}
+				}
+			}
+		}
 		c.Unk("C03.assoc", "(*Parser).ParseExpr: precedence comparison", pe.Pos(), fmt.Sprintf("expected exactly one comparison of two Precedence() results, found %d: a different insertion algorithm is not accepted unexamined", nCmp))
 		return
 	}
@@ -466,4 +511,93 @@ func derivesFromField(v ssa.Value, field string, depth int) bool {
 		return derivesFromField(x.X, field, depth+1)
 	}
 	return false
+}
+
+// binPrintC03: a binary node prints as its two operands around its operator,
+// whatever they are; and no code outside the precedence insertion builds a
+// binary node whose operand is a bare binary node.
+func binPrintC03(c *Ctx, rule string) {
+	p := c.P
+	c.Rule(rule, "every text BinaryExpr.String can return is `<left> <op> <right>` (the operands' own texts, the operator's spelling, in that order): a special case that abbreviates some shape (-1 * x as -x) prints text that denotes another tree; and outside ParseExpr's insertion loop no BinaryExpr is built with a *BinaryExpr stored directly as an operand (the printer adds no parentheses, so such a node prints with another grouping)")
+	f := p.SSAFunc(p.Method("BinaryExpr", "String"))
+	if f == nil {
+		c.Unk(rule, "BinaryExpr.String", 0, "anchor not found")
+		return
+	}
+	leaf := func(v ssa.Value) (string, bool) {
+		call, ok := v.(*ssa.Call)
+		if !ok {
+			return "", false
+		}
+		name := ""
+		var recv ssa.Value
+		if call.Call.IsInvoke() {
+			name, recv = call.Call.Method.Name(), call.Call.Value
+		} else if cal := call.Call.StaticCallee(); cal != nil && cal.Signature.Recv() != nil && len(call.Call.Args) > 0 {
+			name, recv = cal.Name(), call.Call.Args[0]
+		}
+		if name != "String" {
+			return "", false
+		}
+		for _, fld := range []string{"LHS", "RHS", "Op"} {
+			if derivesFromField(recv, fld, 0) {
+				return "<" + fld + ">", true
+			}
+		}
+		return "<?>", true
+	}
+	n := 0
+	for _, b := range f.Blocks {
+		ret, ok := b.Instrs[len(b.Instrs)-1].(*ssa.Return)
+		if !ok || len(ret.Results) != 1 {
+			continue
+		}
+		for _, a := range stringTemplates(ret.Results[0], leaf, 0) {
+			n++
+			key := "BinaryExpr.String: returns " + a
+			switch {
+			case a == "<LHS> <Op> <RHS>":
+				c.OK(rule, key, ret.Pos(), "operands around the operator")
+			case strings.Contains(a, "<?>"):
+				c.Unk(rule, key, ret.Pos(), "text built in a way this rule does not expand")
+			default:
+				c.Bad(rule, key, ret.Pos(), "a binary node is printed in another form than left, operator, right: the text denotes a different tree (or a single literal) when parsed back")
+			}
+		}
+	}
+	c.Floor(rule, n, 1)
+	// construction sites outside ParseExpr
+	binT := p.Named("BinaryExpr")
+	pe := p.SSAFunc(p.Method("Parser", "ParseExpr"))
+	nSites := 0
+	for _, fn := range p.SrcFuncs() {
+		if fn == pe || fn.Signature.Recv() == nil || !strings.HasSuffix(p.TypeStr(fn.Signature.Recv().Type()), "Parser") {
+			continue
+		}
+		for _, b := range fn.Blocks {
+			for _, in := range b.Instrs {
+				st, ok := in.(*ssa.Store)
+				if !ok {
+					continue
+				}
+				fa, ok := st.Addr.(*ssa.FieldAddr)
+				if !ok || !types.Identical(fa.X.Type().Underlying().(*types.Pointer).Elem(), binT) {
+					continue
+				}
+				fld := fieldNameOf(fa)
+				if fld != "LHS" && fld != "RHS" {
+					continue
+				}
+				nSites++
+				v := st.Val
+				if mi, ok := v.(*ssa.MakeInterface); ok {
+					v = mi.X
+				}
+				if pt, ok := v.Type().(*types.Pointer); ok && types.Identical(pt.Elem(), binT) {
+					c.Bad(rule, fmt.Sprintf("%s: BinaryExpr.%s = a *BinaryExpr", fn.Name(), fld), st.Pos(), "a binary node is stored bare as the operand of another binary node outside the precedence insertion: printed without parentheses it regroups")
+				}
+			}
+		}
+	}
+	c.OK(rule, "operand stores outside ParseExpr", 0, fmt.Sprintf("%d stores into BinaryExpr operands in other parser methods; none stores a *BinaryExpr", nSites))
 }
